@@ -205,7 +205,18 @@ def gen_spec(rng, opts=None, depth=None, budget=None, counter=None, force=None):
             return None
         return gen_spec(rng, opts, depth - 1, budget, counter, force)
 
-    if p == "Bin":
+    if p in ("Bin", "SparselyBin") and s.get("via") == "conv" and depth > 1 and budget.n > 0 and rng.chance(0.6):
+        # the shape the two-dimensional convenience constructors exist for: a plain histogram of the same kind below
+        k = gen_spec(rng, opts, 1, _Budget(1), counter, force=p)
+        budget.n -= 1
+        k.pop("via", None)
+        for slot in ("value", "underflow", "overflow", "nanflow"):
+            if slot in k or slot in ("value", "nanflow"):
+                k[slot] = None
+        s["value"] = k
+        for slot in (("underflow", "overflow", "nanflow") if p == "Bin" else ("nanflow",)):
+            s[slot] = None
+    elif p == "Bin":
         s["value"] = child()
         for slot in ("underflow", "overflow", "nanflow"):
             s[slot] = child() if rng.chance(0.5) else None
